@@ -144,7 +144,15 @@ class SourceFile:
                 for sub in it.children:
                     yield sub, it
 
-    def find(self, selector: str):
+    def find_nested(self, outer: Item, selector: str):
+        """rule X6: an item declared INSIDE the body of fn item `outer` (a local enum / struct / impl method), by the
+        same selector forms as `find`"""
+        if outer.body_open < 0:
+            raise LostAnchor("nested cut: the outer item has no body")
+        inner = parse_items(self.src, self.toks, outer.body_open + 1, self.toks[outer.body_open].mate)
+        return self.find(selector, inner)
+
+    def find(self, selector: str, items=None):
         """selector forms:
              fn NAME | struct NAME | enum NAME | trait NAME | const NAME | type NAME | static NAME
              impl HEADER            (HEADER compared after whitespace squeeze, e.g. `SizedType for u64`)
@@ -155,10 +163,11 @@ class SourceFile:
         rest = rest.strip()
         sq = lambda s: "".join(s.split())
         found = []
+        top = self.items if items is None else items
         if kind == "method":
             hdr, _, name = rest.rpartition("::")
             hdr = sq(hdr)
-            for it, parent in self._walk(self.items):
+            for it, parent in self._walk(top):
                 if parent is None or it.kind != "fn" or it.name != name:
                     continue
                 ph = sq(parent.header)
@@ -171,11 +180,11 @@ class SourceFile:
                 if sq(tail) == hdr or (parent.kind == "trait" and parent.name == hdr):
                     found.append(it)
         elif kind == "impl":
-            for it, parent in self._walk(self.items):
+            for it, parent in self._walk(top):
                 if it.kind == "impl" and sq(_impl_tail(it.header)) == sq(rest):
                     found.append(it)
         else:
-            for it, parent in self._walk(self.items):
+            for it, parent in self._walk(top):
                 if parent is None and it.kind == kind and it.name == rest:
                     found.append(it)
         if len(found) != 1:
